@@ -1525,10 +1525,12 @@ class Interp:
         carried_syms: Dict[str, sp.Symbol] = {}
         for n in carried_names:
             v = pre[n]
-            if is_term(v):
+            if is_term(v) or isinstance(v, (bool, str)) or v is None:
+                # scalars of any kind that the body reassigns are loop-carried state
                 s = sp.Symbol(f"~c:{n}@{st.lineno}")
                 carried_syms[n] = s
                 benv.vars[n] = s
+                pre[n] = to_term(v)
             elif isinstance(v, (list, dict)):
                 benv.vars[n] = copy.copy(v)
             elif isinstance(v, DatasetVal):
